@@ -853,6 +853,8 @@ class System:
             for i in an:
                 if self._g.in_degree(i) == 0:
                     return self._g[i]._params["name"]
+        elif self._parents[n] != -1:
+            return self._find_domain(self._parents[n][0], domain, v)
         return domain
 
     def solve(
